@@ -57,7 +57,7 @@ class PostgreSQLQueryBuilder(QueryBuilder):
                 self._distinct_on.append(field)
 
     def _distinct_sql(self, ctx: SqlContext) -> str:
-        distinct_ctx = ctx.copy(with_alias=True)
+        distinct_ctx = ctx.copy(with_alias=False)
         if self._distinct_on:
             return "DISTINCT ON({distinct_on}) ".format(
                 distinct_on=",".join(term.get_sql(distinct_ctx) for term in self._distinct_on)
